@@ -90,7 +90,7 @@ def run(ctx, proof):
                          "word) + one planted mistake of one of 11 classes (or none) behind 0-3 definitions and random operators, x 4 target "
                          "shells; non-trivial = distinct (class, grammar, shell) whose verdict matched the planted class")
     lab = labels()
-    n = 12000 if ctx.thorough() else 480
+    n = 4800 if ctx.thorough() else 480
     cases = gen_cases(ctx, n)
     for i in range(0, len(cases), 240):
         run_cases(ctx, cases[i:i + 240], lab)
